@@ -584,7 +584,8 @@ Definition sub_paths (i : nat) (l : list (list nat)) : list (list nat) :=
    3  aggregator without critical descendant reports STANDBY instead of no opinion (C11-a)
    9  aggregator without critical descendant reports something else than INVARIANT / STANDBY
    10 aggregator without any task below (iterators expanded to nothing) reports INACTIVE (C11-c)
-   15 aggregator without any task below reports something else than INACTIVE *)
+   15 aggregator without any task below reports something else than INACTIVE (as loaded) or
+      UNDEFINED (what aggregateStatus makes of no roles) *)
 Fixpoint snap_codes (stale : list (list nat)) (t : rtree) : list N :=
   match t with
   | Leaf _ _ _ => []
@@ -603,7 +604,9 @@ Fixpoint snap_codes (stale : list (list nat)) (t : rtree) : list N :=
               negb (status_beq x (spec_status (map stat_of cs))) then 14 else 0;
            if negb (has_crit t) && negb (state_beq s INVARIANT)
            then (if state_beq s STANDBY then 3 else 9) else 0;
-           if negb (has_leaf t) then (if status_beq x INACTIVE then 10 else 15) else 0 ]
+           if negb (has_leaf t)
+           then (if status_beq x INACTIVE then 10 else if status_beq x UNDEFINED then 0 else 15)
+           else 0 ]
       ++ (fix go (i : nat) (l : list rtree) : list N :=
             match l with
             | [] => []
